@@ -246,6 +246,7 @@ func main() {
 		nontrivial := false
 		perCfgOutcomes := map[string]struct{}{}
 		perCfgKeys := map[string]struct{}{}
+		cfgBad := false // a violation or a hang in this configuration: the free-running twin would only wait for its timeout
 		ex.Each(func(prefix []int) (*recChooser, bool) {
 			x, ch := r.once(j.cfg, prefix, nil)
 			if !ex.Mine(prefix) {
@@ -269,12 +270,14 @@ func main() {
 				report(res, fl, r, x, verdict{sub + "/panic-in-scheduler", x.Outcome.Detail})
 			case vrt.Hang:
 				res.Count("hang_executions", 1)
+				cfgBad = true
 			}
 			ok := true
 			for _, o := range j.oracles {
 				for _, v := range o(x) {
 					report(res, fl, r, x, v)
 					ok = false
+					cfgBad = true
 				}
 			}
 			if j.conform && x.Returned {
@@ -313,7 +316,10 @@ func main() {
 				res.CheckError("race pass of %s: %v", j.cfg, err)
 			}
 		}
-		if j.conform && !ex.Capped && os.Getenv("VERIF_HELPER_E1_FREE") != "" && (sub == "C01" || sub == "C02" || sub == "C03" || sub == "C15") {
+		if j.conform && cfgBad {
+			res.Count("conformance_skipped_after_violation_or_hang", 1)
+		}
+		if j.conform && !cfgBad && !ex.Capped && os.Getenv("VERIF_HELPER_E1_FREE") != "" && (sub == "C01" || sub == "C02" || sub == "C03" || sub == "C15") {
 			for _, real := range []bool{false, true} {
 				if real {
 					// an attempt that fails before a process exists is a feature of the scripted executor only
